@@ -99,6 +99,14 @@ def judge_value(exp, out, strict):
         return "ok" if list(exp[1]) == list(out[1]) and list(exp[2]) == list(out[2]) else "value"
     if te == "none":
         return "ok" if to == "none" else "kind"
+    if te == "rlenc":
+        if to != te:
+            return "kind"
+        if strict and exp[1] != out[1]:
+            return "dtype"
+        if exp[2] != out[2]:
+            return "shape"
+        return "ok" if _norm(exp) == _norm(out) else "value"
     if te in ("digits", "digit", "windows", "table", "entry", "entries", "matrix2"):      # structures of integers / digit tuples
         return "kind" if to != te else "ok" if _norm(exp) == _norm(out) else "value"
     return "kind"
